@@ -296,14 +296,16 @@ Proof.
                     (fmul d (fmul d V (fmul d (fdiagv (fun m => cmul' (0, - ev m) (cexp' (- ((x - t0) * ev m))))) (fadj V))) Q)).
   { rewrite fmul_assoc, <- fmul_scal_l, (fspec_fexpm d V ev HV). reflexivity. }
   rewrite (E i j Hi Hj). clear E.
-  unfold fmul at 1.
   apply (cderive_ext (fun t => csumn' d (fun k => cmul' (csumn' d (fun m =>
            cmul' (cmul' (V i m) (cexp' (- ((t - t0) * ev m)))) (cconj' (V k m)))) (Q k j)))).
-  { intros t. unfold fmul at 1. apply csumn_ext. intros k Hk. rewrite fexpm_entry; auto. }
-  unfold fmul at 1.
-  rewrite (csumn_ext d _ (fun k => cmul' (csumn' d (fun m =>
+  { intros t. unfold fmul. apply csumn_ext. intros k Hk.
+    change (cmul' (csumn' d (fun m => cmul' (cmul' (V i m) (cexp' (- ((t - t0) * ev m)))) (cconj' (V k m)))) (Q k j)
+            = cmul' (fexpm d V ev (t - t0) i k) (Q k j)).
+    rewrite fexpm_entry; auto. }
+  replace (fmul d (fmul d V (fmul d (fdiagv (fun m => cmul' (0, - ev m) (cexp' (- ((x - t0) * ev m))))) (fadj V))) Q i j)
+    with (csumn' d (fun k => cmul' (csumn' d (fun m =>
       cmul' (cmul' (V i m) (cmul' (0, - ev m) (cexp' (- ((x - t0) * ev m))))) (cconj' (V k m)))) (Q k j))).
-  2:{ intros k Hk. f_equal. unfold fmul at 1. apply csumn_ext. intros m Hm.
+  2:{ unfold fmul at 1. apply csumn_ext. intros k Hk. f_equal. unfold fmul at 1. apply csumn_ext. intros m Hm.
       rewrite (fmul_diag_l d _ (fadj V) m k Hm Hk). unfold fadj. ring. }
   apply cderive_csumn. intros k Hk. apply cderive_mul_r.
   apply cderive_csumn. intros m Hm. apply cderive_mul_r, cderive_mul_l, cderive_cexp_seg.
